@@ -15,10 +15,8 @@ def main():
 
 def replay(path):
     import json
-    from lib.incrate import playback_incrate
+    from checks.steps_common import _pb
     obj = json.load(open(path))["replay"]
-    parts = obj["harness"].split("::")
-    modpath = ("super::" + parts[1]) if parts[0] == "verif_kani" else ("crate::" + "::".join(parts[:-1]))
-    ok, out = playback_incrate(CRATE, "parol_runtime", modpath, obj["playback_test"], "rt")
+    ok, out = _pb(obj["harness"], obj["playback_test"])
     print(out[-2500:])
     return 1 if ok else 0
